@@ -142,6 +142,19 @@ HOSTILE = SELF_WRITERS + [
 ]
 
 
+# cyclic values through every route that turns a value into a string or a number (receiver or argument of a built-in, operators, property keys)
+CYCLIC_MAKERS = ["(() => { const a: any[] = [1, 2]; a.push(a); return a; })()", "(() => { const a: any[] = [1]; const b: any[] = [a, 2]; a.push(b); return a; })()",
+                 "(() => { const a: any[] = [1]; const o: any = {a, toString() { return 'o' + a.length; }}; a.push(o); return a; })()",
+                 "(() => { const o: any = {toString() { return String([o, 1]); }}; return [o]; })()", "(() => { const a: any[] = []; for (let i = 0; i < 3; i++) a.push([a, [a]]); return a; })()"]
+COERCIONS = ["'x'.concat(a)", "String.prototype.trim.call(a)", "'x' + a", "`${a}`", "a.join()", "a.toString()", "String(a)", "[a, a].join('-')", "'abc'.indexOf(a)", "'abc'.includes(a)", "'x'.padEnd(5, a)", "'x'.startsWith(a)",
+             "String.prototype.toUpperCase.call(a)", "String(new RegExp(a))", "parseInt(a)", "Number(a)", "isNaN(a)", "Object.keys({[a]: 1})[0]", "'x'.localeCompare(a)", "'a,b'.split(a).length", "'x'.replace(a, 'y')",
+             "'x'.replace('x', a)", "encodeURIComponent(a)", "String(Symbol(a))", "new Error(a).message", "a < 'z'", "a == '1,2,'", "a in {}", "a.toLocaleString()", "JSON.stringify({[a]: 1})", "[a, 'b', a].sort().length",
+             "String(new Date(a))", "new Map([[String(a), 1]]).size", "(() => { const o: any = {}; o[a] = 1; return Object.keys(o)[0]; })()", "String.prototype.charAt.call(a, 0)", "String.prototype.repeat.call(a, 2)",
+             "String.prototype.slice.call(a, 1)", "String.prototype.split.call(a, ',').length", "String.prototype.at.call(a, 0)", "String.prototype.normalize.call(a)", "String.prototype.codePointAt.call(a, 0)",
+             "String.prototype.endsWith.call(a, ']')", "String.prototype.match.call(a, /1/)", "String.prototype.search.call(a, /1/)", "String.prototype.substring.call(a, 0, 3)", "String.prototype.padStart.call(a, 30, a)",
+             "String.prototype.lastIndexOf.call(a, a)", "String.prototype.replaceAll.call(a, ',', a)", "a.concat(a).join()", "Number.parseFloat(a)", "Math.max(a)", "a * 1", "-a", "a | 0", "a ** 2", "+a", "a >= a", "Array.prototype.join.call({length: 2, 0: a, 1: a})"]
+
+
 def tramp_program(rng):
     """only script-to-script calls: plain functions, recursion, closures, methods, constructors, static methods, bound-free."""
     n = rng.randint(2, 6)
@@ -231,6 +244,10 @@ def run(ctx):
             setup, expr = re.sub(r"\bD\b", str(d), src).split(" ;;; ")
             progs.append("%s;\nlet out; try { out = 'v' + (%s); } catch (e) { out = 'caught:' + (e && (e as any).name); } String(out).slice(0, 60)" % (setup, expr))
             meta.append(("deep-structure", "%s D=%d" % (nm, d)))
+    for co in COERCIONS:
+        progs.append("const outs: string[] = [];\n" + "\n".join("{ const a: any = %s; let r; try { r = 'v' + String(%s).slice(0, 20); } catch (e) { r = 'caught:' + (e && (e as any).name); } outs.push(r); }" % (mk, co) for mk in CYCLIC_MAKERS)
+                     + "\nouts.join(' ').slice(0, 150)")
+        meta.append(("cyclic-coercion", co))
     for h in HOSTILE:
         for sz in ((SIZES if ctx.tier != "quick" else ["3", "4294967295", "9007199254740991", "-1", "NaN"]) if re.search(r"\bN\b", h) else ["0"]):
             # the thrown value may itself be hostile (a proxy whose get trap throws): looking at it is guarded too
